@@ -117,8 +117,30 @@ prop("C18", True,
      EVAL_NOTE, "5.18",
      "cases = (document, start node, relative expression) and (document, P, R[, f]). Non-trivial = start node is not an element or an axis leaves its subtree; composition: P selects >= 2 nodes and R carries a predicate; distinct by (start kind and shape, expression) resp. (P/R text, document).")
 
-for pid in ["C14", "C15", "C19", "C20"]:
-    prop(pid, False, "", "", "", "", "")
+prop("C14", True,
+     "property-based stress testing (rapid) under the Go race detector: generated concurrent Exec programs on shared tree/expressions/bindings vs. their serial results; race-built CLI -c N vs. per-file blocks",
+     "Generated search: one document, 2-6 compiled expressions (weighted toward unions, paths and predicates over a shared node-set variable bound in caller order), one shared set of binding maps; 2-16 goroutines released by a barrier each run a drawn program of Exec calls for 1-4 rounds; every concurrent result must equal the serial result computed beforehand, and the test binary is built with -race (GORACE=halt_on_error: the first report ends the shard and the running case becomes the replay file). CLI: the race-built command runs over generated trees of 10-60 XML/JSON/HTML files (some malformed) with -c 2/4/16; stdout must be a sequence of exactly the per-file blocks (each obtained by running the tool on that file alone), intact and contiguous, in any order.",
+     "Coverage of interleavings is probabilistic: this family does not own the Go scheduler. The race detector flags unsynchronised conflicting accesses that execute in a run whether or not the bad interleaving happens. A failing schedule is not replayable as such; the replay re-runs the case 100 times under -race.",
+     "5.14",
+     "cases = concurrent programs (document, expressions, shared $v, goroutines x operations x rounds) and CLI file trees. Non-trivial = >= 2 goroutines execute an expression over the shared node-set variable of >= 2 nodes; CLI: >= 8 files with -a or -m (multi-line blocks); distinct by (expressions, shared variable, goroutine count, document) resp. (flags, tree).")
+prop("C15", True,
+     "property-based testing (rapid) + native coverage-guided fuzzing (go test -fuzz, thorough tier): recover-wrapped entry points over valid, mutated and raw expressions and documents",
+     "Generated search: expression strings from five sources (rendered typed ASTs, ill-typed ASTs, invalid-by-construction token mutations, token soup, raw Unicode) with boundary-value numeric and Unicode variables, nil variable values and hostile constants, executed from the root, an element and an attribute of a fixed or generated document; documents from three sources (valid XML/JSON/HTML serialisations, byte-level mutations, raw bytes) through ReadXml/ReadHtml/ReadJson. Every call runs under recover and a generous deadline: a panic, a nil result with a nil error, an unusable tree/result, an 'xpath query panic' error on a well-typed query, or a call that does not terminate twice within 60 s is a violation. Thorough adds five native fuzz targets (FuzzExpr, FuzzXml, FuzzHtml, FuzzJson, FuzzPair) with the same oracle inside the target.",
+     "Process aborts (fatal errors, stack exhaustion) are seen as a shard dying without a report (exit 2 with the log). Unmarshal targets are covered by C19's unsupported-target check. Inputs are limited to 64 KiB in the fuzz targets.",
+     "5.15",
+     "cases = inputs to BuildExpr/Exec/Read*. Non-trivial = expression of >= 3 tokens or document of >= 8 bytes; distinct by input (and variable values).")
+prop("C19", True,
+     "property-based testing (rapid): target types built at run time with reflect.StructOf, expected field values recomputed from separate Exec calls and plain conversions, compared deeply",
+     "Generated search: target types built with reflect.StructOf (fields of kind string, bool, all int/uint widths, float32/64, slices of scalars, nested structs, slices of structs and of pointers to structs, pointer depth 0-3 on any tagged field, untagged fields holding sentinels), passed as *T, **T, ***T and *[]E with node-sets of size 0/1/n; every tagged field must equal its tag's result evaluated from the struct's node and converted per kind, slices one element per node in result order, untagged fields untouched; wrong-shaped results must give an error. Fifteen unsupported targets (nil, non-pointer struct, nil pointer, pointer to nil pointer, map, array, chan, func, 2-D slice, unexported tagged field, interface/map/array fields, *int, string) must give an error and never panic.",
+     "The tag results come from xsel.Exec itself (the property defines the field value as that result; C18 checks those results against the reference). Numeric results outside the field's range or NaN for integer fields are implementation-defined in Go and not judged.",
+     "5.19",
+     "cases = (document, select query, target type) and (unsupported target, result). Non-trivial = the target shape has a pointer, a nested struct or a slice of structs/pointers; every unsupported kind; distinct by (type shape, select).")
+prop("C20", True,
+     "property-based testing (rapid) of the built command: generated file trees x flag sets x expressions; expected stdout derived through the library API in-process; -m records re-parsed and compared with the selected subtree",
+     "Generated search: temp trees of 1-6 files (XML from the serialiser, JSON, tag soup; nested directories; odd or missing extensions; malformed files; dangling symlinks; missing arguments; stdin) x flags -a -m -n -r -u -t -s -v -c 1 x 32 expressions (node-set, string, number, boolean results, every node kind, namespaces and variables from -s/-v); stdout must equal, byte for byte, the records derived through the library for each processed file in walk order (nothing for empty node-sets, first node or one record per node with -a, 'path: ' prefix unless -n/stdin); with -m every selected node yields one line that parses with ReadXml to a tree equal to the selected subtree (expanded names, attributes, text, comments, PIs); every unreadable/unparsable/untyped input must be named on stderr and must not disturb the other files' output.",
+     "The binary is rebuilt from /repo for every run. Attribute/namespace records (CLI's own PI notation) and -m over JSON/HTML trees are only checked for shape/no crash. Tests run as root, so unreadable files are simulated by dangling symlinks and missing paths.",
+     "5.20",
+     "cases = (file tree, flags, expression). Non-trivial = >= 2 files; distinct by (argv, file names and sizes).")
 
 
 def main():
